@@ -1438,7 +1438,7 @@ class Engine:
         if isinstance(obj, (DictVal, ListVal, SetVal, ItemsView, tuple, list, dict, str, frozenset, AssignVal, SeqIter)) or \
            (isinstance(obj, SV) and obj.t == "key"):
             return Builtin("m." + name, recv=obj)
-        if isinstance(obj, BuiltinClass):
+        if isinstance(obj, BuiltinClass) or (isinstance(obj, Builtin) and obj.recv is None and obj.name in self.BUILTIN_CLASSES):
             return Builtin(obj.name + "." + name)
         if isinstance(obj, SV) and name in ("subs", "simplify"):
             raise PyExc("AttributeError", name)
